@@ -50,6 +50,11 @@ CHECKS = {
    text="LwSampling models one sample through draw -> efficiency -> dark counts -> threshold -> herald check on the detected pattern -> herald removal -> post-selection -> min detection with exact rational branch weights; TLC checks the safety clauses on every emitted state of every branch and its terminal states ARE the exact detected / heralded / post-selected distribution. The real sample_N_inputs / sample_N_outputs / sample (Sampler and QuickSampler) results must contain only states the specification emits, have exactly N samples where required, be reproducible for a fixed seed, and pass a per-cell z-test (|z| <= 7) against the exact values, as must the accepted fraction.",
    note="Convergence itself is statistical: the specification supplies the exact distribution, the decision on frequencies is a hypothesis test (false-alarm probability < 3e-12 per cell for a fresh seed; deterministic for a fixed VERIF_SEED). sample_N_outputs is in scope for efficiency 1, p_dark 0. Known finding F12 (Sampler.sample on heralded circuits) is recorded, not repaired. " + TB,
    technique="TLC on LwSampling (all branches, exact weights) supplies safety verdicts and the reference distribution; hypothesis test on the implementation's frequencies"),
+ "C12": dict(
+   level="model_checking", design="DESIGN.md section 5 C12",
+   text="LwConverter transcribes the backward pass of post_selection_analyzer and executes every gate sequence on an abstract photon-count semantics (heralded gate: logical in, logical out; post-selected gate: ANY redistribution of its photons among its pairs; swap: exchanges pairs); TLC checks Safe (acceptance implies no intermediate non-logical state) and RefusesProp for all sequences in scope with the rule 'n-1 untouched qubits', and refutes the rule of the pinned tree with a 2-gate counterexample. Every enumerated sequence (sampled), dressed with random single-qubit gates, is converted by the real converter and the property itself is checked: accepted amplitudes on all dual-rail basis inputs = one scalar x qiskit's unitary, nothing accepted outside the qubit subspace; decisions are compared with the model (difference = DRIFT, not a violation).",
+   note="Scope: 3 qubits / <= 3 multi-qubit gates and 4 qubits / <= 2-3 gates exhaustively at model level (4 gates in the thorough tier), replay sampled. Reference unitary from qiskit.quantum_info.Operator. " + TB,
+   technique="TLC on LwConverter (decision procedure + abstract photon-count safety); enumerated sequences replayed through the real converter and Simulator"),
  "C10": dict(
    level="model_checking", design="DESIGN.md section 5 C10",
    text="LwParams (value / min / max, ParameterDict) is checked exhaustively by TLC over ALL interleavings of accepted and rejected updates (no depth bound; invariants InBounds, BoundsNumeric; action property RejectedChangesNothing) and its behaviours are replayed into real Parameter / ParameterDict objects with the full state compared after every call. LwCircuit carries parameter references in its ops and a pval variable: TLC checks LiveParams (every circuit's exact matrix is the one for the current values after ANY step, including Parameter.set, rewrites, additions, copies), FrozenProp and frames; dumped and simulated programs are replayed and U, get_all_params and compile errors compared.",
